@@ -5,6 +5,7 @@ import (
 	"sync"
 	"time"
 
+	"github.com/aperturerobotics/util/verifhook"
 	cbackoff "github.com/cenkalti/backoff/v4"
 	"github.com/sirupsen/logrus"
 )
@@ -80,6 +81,7 @@ func NewKeyedWithLogger[K comparable, V any](
 // nil context is valid and will shutdown the routines.
 // if restart is true, all errored routines also restart
 func (k *Keyed[K, V]) SetContext(ctx context.Context, restart bool) {
+	verifhook.Point(verifhook.KeyedLock, k)
 	k.mtx.Lock()
 	k.setContextLocked(ctx, restart)
 	k.mtx.Unlock()
@@ -117,6 +119,7 @@ func (k *Keyed[K, V]) ClearContext() {
 
 // GetKeys returns the list of keys registered with the Keyed instance.
 func (k *Keyed[K, V]) GetKeys() []K {
+	verifhook.Point(verifhook.KeyedLock, k)
 	k.mtx.Lock()
 	defer k.mtx.Unlock()
 
@@ -137,6 +140,7 @@ type KeyWithData[K comparable, V any] struct {
 
 // GetKeysWithData returns the keys and the data for the keys.
 func (k *Keyed[K, V]) GetKeysWithData() []KeyWithData[K, V] {
+	verifhook.Point(verifhook.KeyedLock, k)
 	k.mtx.Lock()
 	defer k.mtx.Unlock()
 
@@ -154,6 +158,7 @@ func (k *Keyed[K, V]) GetKeysWithData() []KeyWithData[K, V] {
 // If start=true, restarts the routine from any stopped or failed state.
 // Returns if it existed already or not.
 func (k *Keyed[K, V]) SetKey(key K, start bool) (V, bool) {
+	verifhook.Point(verifhook.KeyedLock, k)
 	k.mtx.Lock()
 	defer k.mtx.Unlock()
 
@@ -180,6 +185,7 @@ func (k *Keyed[K, V]) SetKey(key K, start bool) (V, bool) {
 // RemoveKey removes the given key from the set, if it exists.
 // Returns if it existed.
 func (k *Keyed[K, V]) RemoveKey(key K) bool {
+	verifhook.Point(verifhook.KeyedLock, k)
 	k.mtx.Lock()
 	defer k.mtx.Unlock()
 
@@ -193,6 +199,7 @@ func (k *Keyed[K, V]) RemoveKey(key K) bool {
 // SyncKeys synchronizes the list of running routines with the given list.
 // If restart=true, restarts any routines in the failed state.
 func (k *Keyed[K, V]) SyncKeys(keys []K, restart bool) (added, removed []K) {
+	verifhook.Point(verifhook.KeyedLock, k)
 	k.mtx.Lock()
 	defer k.mtx.Unlock()
 
@@ -237,6 +244,7 @@ func (k *Keyed[K, V]) SyncKeys(keys []K, restart bool) (added, removed []K) {
 
 // GetKey returns the value for the given key and existed.
 func (k *Keyed[K, V]) GetKey(key K) (V, bool) {
+	verifhook.Point(verifhook.KeyedLock, k)
 	k.mtx.Lock()
 	defer k.mtx.Unlock()
 
@@ -258,6 +266,7 @@ func (k *Keyed[K, V]) GetKey(key K) (V, bool) {
 //
 // If len(conds) == 0, always resets the given key.
 func (k *Keyed[K, V]) ResetRoutine(key K, conds ...func(K, V) bool) (existed bool, reset bool) {
+	verifhook.Point(verifhook.KeyedLock, k)
 	k.mtx.Lock()
 	defer k.mtx.Unlock()
 
@@ -273,6 +282,7 @@ func (k *Keyed[K, V]) ResetRoutine(key K, conds ...func(K, V) bool) (existed boo
 //
 // If len(conds) == 0, always resets the keys.
 func (k *Keyed[K, V]) ResetAllRoutines(conds ...func(K, V) bool) (resetCount, totalCount int) {
+	verifhook.Point(verifhook.KeyedLock, k)
 	k.mtx.Lock()
 	defer k.mtx.Unlock()
 
@@ -330,6 +340,7 @@ func (k *Keyed[K, V]) resetRoutineLocked(key K, conds ...func(K, V) bool) (exist
 //
 // If len(conds) == 0, always resets the given key.
 func (k *Keyed[K, V]) RestartRoutine(key K, conds ...func(K, V) bool) (existed bool, reset bool) {
+	verifhook.Point(verifhook.KeyedLock, k)
 	k.mtx.Lock()
 	defer k.mtx.Unlock()
 
@@ -341,6 +352,7 @@ func (k *Keyed[K, V]) RestartRoutine(key K, conds ...func(K, V) bool) (existed b
 //
 // If len(conds) == 0, always resets the keys.
 func (k *Keyed[K, V]) RestartAllRoutines(conds ...func(K, V) bool) (restartedCount, totalCount int) {
+	verifhook.Point(verifhook.KeyedLock, k)
 	k.mtx.Lock()
 	defer k.mtx.Unlock()
 
